@@ -26,10 +26,7 @@
 
 #include "c17_search.h"
 
-#if defined(__SANITIZE_ADDRESS__)
-void __sanitizer_set_death_callback(void (*callback)(void));
-#define HAVE_DEATH_CALLBACK 1
-#endif
+#include <sys/mman.h>
 
 enum { J_FIX, J_SEQ, J_LEAK, J_LEAK2 };
 
@@ -46,6 +43,7 @@ struct job {
 	char *buf;
 	size_t blen, bcap;
 	int done, started;
+	struct curstate *shm; /* shared with the child: the operation sequence it is executing right now */
 	struct jobstat st;
 	char sample[400];
 	double secs;
@@ -129,7 +127,9 @@ static void make_jobs(int thorough)
 			}
 		}
 		for (o = 4; o <= 5; o++) {
-			add_job(J_FIX, kt, 8, o, &UT_FIX[0]);
+			/* with fewer than 8 keys an 8-bit-hop table of order >= 4 behaves exactly like the 32-bit one of order 4 (run above
+			 * with 7 keys: same 3165429 states), so 6 keys are enough here; the seeded universes below are the interesting ones */
+			add_job(J_FIX, kt, 8, o, &UT_FIX[5]);
 			add_job(J_FIX, kt, 8, o, &UT_FIX[4]);
 			for (i = 0; i < N_UT_H8; i++) {
 				add_job(J_FIX, kt, 8, o, &UT_H8[i]);
@@ -150,6 +150,17 @@ static void make_jobs(int thorough)
 	}
 }
 
+static void kill_children(void)
+{
+	int i;
+	for (i = 0; i < g_njobs; i++) {
+		if (g_jobs[i].fd >= 0 && g_jobs[i].pid > 0) {
+			kill(g_jobs[i].pid, SIGKILL);
+			waitpid(g_jobs[i].pid, NULL, 0);
+		}
+	}
+}
+
 /* ------------------------------------------------------------------ child side */
 
 static void run_job_child(struct job *j, int fd)
@@ -161,9 +172,7 @@ static void run_job_child(struct job *j, int fd)
 	g_out_fd = fd;
 	memset(&st, 0, sizeof(st));
 	sample[0] = 0;
-#ifdef HAVE_DEATH_CALLBACK
-	__sanitizer_set_death_callback(death_callback);
-#endif
+	g_cur = j->shm;
 	if (j->kind == J_FIX) {
 		run_fixpoint(in, j->t, &st, sample, sizeof(sample));
 	} else if (j->kind == J_SEQ) {
@@ -195,12 +204,72 @@ struct viol {
 static struct viol g_viol[MAXVIOL];
 static int g_nviol;
 
-static void collect_violation(const struct job *j, char *line)
+static void add_violation(const struct job *j, const char *key, int nops, const char *msg, const char *replay_text)
+{
+	int i;
+	for (i = 0; i < g_nviol; i++) {
+		if (!strcmp(g_viol[i].key, key)) {
+			break;
+		}
+	}
+	if (i < g_nviol) {
+		/* keep the shortest; on a tie the alphabetically first section so that the choice does not depend on scheduling */
+		if (nops > g_viol[i].nops || (nops == g_viol[i].nops && strcmp(j->name, g_viol[i].section) >= 0)) {
+			return;
+		}
+		free(g_viol[i].msg);
+		free(g_viol[i].replay);
+	} else {
+		if (g_nviol >= MAXVIOL) {
+			return;
+		}
+		g_nviol++;
+	}
+	snprintf(g_viol[i].key, sizeof(g_viol[i].key), "%s", key);
+	g_viol[i].nops = nops;
+	g_viol[i].msg = strdup(msg);
+	g_viol[i].replay = strdup(replay_text);
+	snprintf(g_viol[i].section, sizeof(g_viol[i].section), "%s", j->name);
+}
+
+/* the child died while executing the real code: the shared record holds the sequence that killed it */
+static int violation_from_dead_child(const struct job *j, int status)
+{
+	static char text[65536];
+	char key[200], msg[300];
+	const struct curstate *cs = j->shm;
+	size_t len;
+	int nops;
+	if (WIFEXITED(status) && WEXITSTATUS(status) == 2) {
+		return 0; /* die(): a harness error, not the code under test */
+	}
+	if (cs == NULL || !cs->have_header || cs->nseed < 0 || cs->nseed > MAXK || cs->npath < 0 || cs->npath > MAXREPLAYOPS || cs->nseed + cs->npath == 0) {
+		return 0;
+	}
+	nops = cs->nseed + cs->npath;
+	snprintf(key, sizeof(key), "process-killed-during-%s/hop%u/order%u", cs->npath > 0 ? op_name(cs->path[cs->npath - 1].kind) : "put", cs->hop, cs->order);
+	if (WIFSIGNALED(status)) {
+		snprintf(msg, sizeof(msg), "the process was killed by signal %d while the real code executed the last operation of the sequence", WTERMSIG(status));
+	} else {
+		snprintf(msg, sizeof(msg), "the process was aborted (exit status %d: AddressSanitizer/UBSan report) while the real code executed the last operation of the sequence",
+		         WEXITSTATUS(status));
+	}
+	len = (size_t)snprintf(text, sizeof(text), "%s", cs->header);
+	if (len >= sizeof(text)) {
+		return 0;
+	}
+	replay_format_ops(text + len, sizeof(text) - len, cs->seed, cs->nseed, cs->path, cs->npath, key);
+	add_violation(j, key, nops, msg, text);
+	return 1;
+}
+
+static void collect_violation(struct job *j, char *line)
 {
 	/* V \t key \t nops \t msg \t replay(escaped) */
 	char *f[5];
 	int i, n = 0;
 	char *p = line;
+	(void)j;
 	for (i = 0; i < 5; i++) {
 		f[i] = p;
 		n++;
@@ -220,30 +289,7 @@ static void collect_violation(const struct job *j, char *line)
 			*p = '\n';
 		}
 	}
-	for (i = 0; i < g_nviol; i++) {
-		if (!strcmp(g_viol[i].key, f[1])) {
-			break;
-		}
-	}
-	if (i < g_nviol) {
-		/* keep the shortest; on a tie the alphabetically first section so that the choice does not depend on scheduling */
-		int nops = atoi(f[2]);
-		if (nops > g_viol[i].nops || (nops == g_viol[i].nops && strcmp(j->name, g_viol[i].section) >= 0)) {
-			return;
-		}
-		free(g_viol[i].msg);
-		free(g_viol[i].replay);
-	} else {
-		if (g_nviol >= MAXVIOL) {
-			return;
-		}
-		g_nviol++;
-	}
-	snprintf(g_viol[i].key, sizeof(g_viol[i].key), "%s", f[1]);
-	g_viol[i].nops = atoi(f[2]);
-	g_viol[i].msg = strdup(f[3]);
-	g_viol[i].replay = strdup(f[4]);
-	snprintf(g_viol[i].section, sizeof(g_viol[i].section), "%s", j->name);
+	add_violation(j, f[1], atoi(f[2]), f[3], f[4]);
 }
 
 static void parse_job_output(struct job *j)
@@ -464,6 +510,11 @@ int main(int argc, char **argv)
 			if (pipe(p) != 0) {
 				die("pipe: %s", strerror(errno));
 			}
+			j->shm = mmap(NULL, sizeof(struct curstate), PROT_READ | PROT_WRITE, MAP_SHARED | MAP_ANONYMOUS, -1, 0);
+			if (j->shm == MAP_FAILED) {
+				die("mmap: %s", strerror(errno));
+			}
+			memset(j->shm, 0, sizeof(struct curstate));
 			fflush(NULL);
 			j->pid = fork();
 			if (j->pid < 0) {
@@ -524,24 +575,19 @@ int main(int argc, char **argv)
 				}
 				running--;
 				parse_job_output(j);
+				if (j->done == 1 && !(WIFEXITED(status) && WEXITSTATUS(status) == 0)) {
+					j->done = -1;
+				}
 				if (j->done != 1) {
-					/* the child died: acceptable only if its death callback recorded the sequence that killed it */
-					int k, have = 0;
-					for (k = 0; k < g_nviol; k++) {
-						if (!strcmp(g_viol[k].section, j->name) && !strncmp(g_viol[k].key, "sanitizer-abort", 15)) {
-							have = 1;
-						}
-					}
-					if (!have && WIFEXITED(status) && WEXITSTATUS(status) == 2) {
-						fprintf(stderr, "c17: job %s reported a harness error\n", j->name);
-						return 2;
-					}
-					if (!have) {
-						fprintf(stderr, "c17: job %s died (status 0x%x) without recording why\n", j->name, status);
+					/* the child died: a finding if the shared record tells which operation sequence killed it, a harness error otherwise */
+					if (!violation_from_dead_child(j, status)) {
+						fprintf(stderr, "c17: job %s %s (status 0x%x)\n", j->name,
+						        WIFEXITED(status) && WEXITSTATUS(status) == 2 ? "reported a harness error" : "died without recording why", status);
+						kill_children();
 						return 2;
 					}
 					j->st.exhaustive = 0;
-					snprintf(j->st.cap, sizeof(j->st.cap), "aborted-by-sanitizer");
+					snprintf(j->st.cap, sizeof(j->st.cap), "child-killed-by-the-code-under-test");
 				}
 			}
 		}
@@ -555,7 +601,7 @@ int main(int argc, char **argv)
 	}
 	for (i = 0; i < nreport; i++) {
 		struct viol *v = &g_viol[i];
-		int want = !strncmp(v->key, "sanitizer-abort", 15) ? -1 : RV_SAME;
+		int want = !strncmp(v->key, "process-killed", 14) ? -1 : RV_SAME;
 		int a = verify_once(v), b = verify_once(v);
 		FILE *rf;
 		if (a != want || b != want) {
@@ -604,7 +650,7 @@ int main(int argc, char **argv)
 	            "table (wrap-around), or the put was refused (HASHTABLE_FULL)");
 	fprintf(f, ",\n  \"nontrivial_breakdown\": { \"displacement\": %llu, \"wrap_around\": %llu, \"refused\": %llu },\n", n_displace, n_wrap, n_refused);
 	fprintf(f, "  \"bounds\": { \"fixpoint_hop32_orders\": \"%s\", \"fixpoint_hop8_orders\": \"%s\", \"depth3_orders\": \"%s\", \"key_types\": \"string,uint32,uint64\", "
-	           "\"values\": \"1,2\", \"universe_keys\": \"6-7 from empty; 6 active + 5-6 frozen fillers for hop8 seeded\", \"sequence_depth_large\": 3, \"state_cap_per_section\": %u },\n",
+	           "\"values\": \"1,2\", \"universe_keys\": \"hop32: 7/7/6 keys from empty; hop8: 5-6 keys from empty, and 6 active keys on top of 5-6 frozen fillers\", \"sequence_depth_large\": 3, \"state_cap_per_section\": %u },\n",
 	        thorough ? "2,3,4" : "2,3", thorough ? "4,5" : "4 (+5 uint32 dense)", thorough ? "5..13 all key types (hop32), 6 (hop8)" : "7,13 string", BFS_STATE_CAP);
 	fprintf(f, "  \"caps_hit\": [");
 	{
